@@ -98,12 +98,14 @@ class LetFiller(Visitor):
     def visit_NamedQubit(self, qubit):
         """Visit a named qubit that may possibly have its index
         remapped. Doing so will change the name of the qubit."""
+        new_from = self.visit(qubit.alias_from)
         if isinstance(qubit.alias_index, Constant):
             new_index = self.resolve_constant(qubit.alias_index)
-            new_from = self.visit(qubit.alias_from)
             return new_from[new_index]
         else:
-            return qubit
+            # Rebuild the qubit even if its index is unchanged: it must refer
+            # to the filled-in register, not to the one sized by a constant.
+            return NamedQubit(qubit.name, new_from, qubit.alias_index)
 
     def visit_Register(self, reg):
         """Visit either a fundamental register or a map alias. Either may
@@ -111,7 +113,7 @@ class LetFiller(Visitor):
         if reg.fundamental:
             if isinstance(reg.size, Constant):
                 new_size = self.resolve_constant(reg.size)
-                return ["register", reg.name, new_size]
+                return Register(reg.name, new_size)
             else:
                 return reg
         else:
@@ -168,9 +170,9 @@ class RegisterVisitor(LetFiller):
     def visit_NamedQubit(self, qubit):
         """Visit a named qubit that may possibly have its index
         remapped. Doing so will change the name of the qubit."""
+        new_from = self.visit(qubit.alias_from)
         if isinstance(qubit.alias_index, Constant):
             new_index = self.resolve_constant(qubit.alias_index)
-            new_from = self.visit(qubit.alias_from)
-            return NamedQubit(qubit.name, new_from, new_index)
         else:
-            return qubit
+            new_index = qubit.alias_index
+        return NamedQubit(qubit.name, new_from, new_index)
